@@ -67,11 +67,21 @@ func SimC02(c *CheckCtx, i int, r *Rng) error {
 	base := drawBase(r)
 	thorough := c.Tier == "thorough"
 	m, names, gens := smallWorld(r, base, map[bool]int{false: 2, true: 4}[thorough], map[bool]int{false: 4, true: 8}[thorough])
+	real := i%5 == 4
+	if real {
+		// crash consistency of the files of the real runtimedoc/deepcopy/defaulter generators
+		m, names = DrawRealModule(r, 1)
+		gens = RealGens(names)
+		c.Env.Stats.Add("probe/real-generators-world", 1)
+	}
 	all := make([]int, len(m.Pkgs))
 	for k := range all {
 		all[k] = k
 	}
 	args := proto.GenArgs{Entrypoint: spell(r, m, all), Base: base, All: true, Globals: drawGlobals(r, names)}
+	if real {
+		args.Globals = nil
+	}
 	sched := drawSched(r)
 	mkRun := func(fresh bool) *RunOp { return &RunOp{Args: args, Gens: gens, Sched: sched, Fresh: fresh} }
 
